@@ -44,6 +44,21 @@ Theorem C06_complete_when_sender_finishes_first : forall m tr s d,
 Proof. exact run_complete. Qed.
 Print Assumptions C06_complete_when_sender_finishes_first.
 
+(* ... and that is the only way it can end when the sender finishes first: once the direction has read EOF from
+   its source, with no veto and no Write reporting an error in that direction (nothing closed under it), it is
+   still delivering the last chunk or it has returned nil with everything delivered (PPanic: the reader broke
+   the io.Reader contract by returning more than the buffer holds). *)
+Theorem C06_sender_finishes_first_returns_nil : forall m tr s d bl c,
+  exec (init m) tr = Some s -> wok_tr tr ->
+  In (ALoop d (LRead bl c EEOF)) tr -> Forall quiet_act (proj d tr) ->
+  match pcof s d with
+  | PRet e | PDone e => e = GNil /\ srcb d tr = snkb d tr
+  | PLog _ _ | PWrite _ _ | PPanic => True
+  | _ => False
+  end.
+Proof. exact run_sender_finishes. Qed.
+Print Assumptions C06_sender_finishes_first_returns_nil.
+
 (* Every Write of a direction is directly preceded, in that direction, by the Read that returned this very
    chunk and - with a logger - by the LogTraffic call that approved its size in the argument position of
    the direction (Up: tx, Down: rx). *)
